@@ -11,6 +11,8 @@ props = [json.loads(l)["id"] for l in open(os.path.join(V, "properties.jsonl"))]
 checks, na = [], []
 for pid in props:
     r = None
+    if pid not in registry.READY:
+        na.append({"property_id": pid, "reason": registry.NOT_CLAIMED.get(pid, "check under construction/review in this revision of /verif (planned: see DESIGN.md section 5); not claimed until reviewed on the unchanged tree")}); continue
     if os.path.exists(os.path.join(V, "vf", "checks", pid.lower() + ".py")):
         r = getattr(importlib.import_module("vf.checks." + pid.lower()), "META", None)
     if r is not None and not r.get("claimed", True):
